@@ -520,11 +520,11 @@ def run(ctx: Ctx):
                      "a unary nat); huge capacities are judged by the oracle and by the Coq spec_check (Z), large sizes by the oracle only")
     ctx.notes.append("events e1-e5 are detected by an instrumented Python port of the algorithm (maxflow_events.ref_run); it only steers "
                      "generation and fills histograms; histogram reference_port_agrees shows it reproduces the implementation's result")
-    n_lay = ctx.budget(240, 5000)
-    n_adv = ctx.budget(240, 5000)
-    n_rnd = ctx.budget(200, 5000)
-    n_gad = ctx.budget(120, 2500)          # per gadget family
-    n_search = ctx.budget(20000, 400000)   # reference runs spent on the event-directed search
+    n_lay = ctx.budget(240, 3000)
+    n_adv = ctx.budget(240, 3000)
+    n_rnd = ctx.budget(200, 3000)
+    n_gad = ctx.budget(120, 1800)          # per gadget family
+    n_search = ctx.budget(20000, 220000)   # reference runs spent on the event-directed search
 
     # open known findings (none at the time of writing): replay their structured witnesses first
     for f in ctx.open_findings():
@@ -536,9 +536,9 @@ def run(ctx: Ctx):
                 ctx.known_hit(f["id"], f"witness still reproduces: {wbad}")
 
     thorough = ctx.tier == "thorough"
-    n_lab = ctx.budget(80, 1500)           # L: forced special label schemes
-    n_mag = ctx.budget(160, 2500)          # M: huge / mixed / scaled capacities
-    n_big = ctx.budget(16, 120)            # S: large instances, answer known by construction
+    n_lab = ctx.budget(80, 1000)           # L: forced special label schemes
+    n_mag = ctx.budget(160, 1800)          # M: huge / mixed / scaled capacities
+    n_big = ctx.budget(16, 70)            # S: large instances, answer known by construction
     rng = ctx.rng
     cases, kinds = [], []
 
